@@ -23,8 +23,9 @@ class _Proceed(Exception):
 
 
 class GuardTable:
-    def __init__(self, fn, states, state_attr='state', self_name='self'):
+    def __init__(self, fn, states, state_attr='state', self_name='self', consts=None):
         self.fn = fn
+        self.consts = consts or {}      # module-level constants of string / tuple-of-string type (folded), e.g. named state groups
         self.states = states
         self.state_attr = state_attr
         self.self_name = self_name
@@ -44,6 +45,8 @@ class GuardTable:
                 return env.get('@state', state)
             if isinstance(e, ast.Constant):
                 return e.value
+            if isinstance(e, ast.Name) and e.id in self.consts and ('@alias:' + e.id) not in env:
+                return self.consts[e.id]
             if isinstance(e, (ast.Tuple, ast.List, ast.Set)):
                 return tuple(ev(x) for x in e.elts)
             if isinstance(e, ast.BoolOp):
@@ -68,6 +71,8 @@ class GuardTable:
                 ls, rs = self.is_state(l, env), self.is_state(r, env)
                 if ls or rs or (isinstance(l, ast.Constant) and isinstance(r, (ast.Constant, ast.Tuple, ast.List))):
                     a, b = ev(l), ev(r)
+                    if isinstance(op, (ast.In, ast.NotIn)) and not isinstance(b, (tuple, list, set, frozenset, str, dict)):
+                        raise AnalysisError('the state is tested for membership in %s, which is not a constant collection' % ast.unparse(r))
                     f = {ast.Eq: operator.eq, ast.NotEq: operator.ne, ast.In: lambda x, y: x in y,
                          ast.NotIn: lambda x, y: x not in y}.get(type(op))
                     if f is None:
